@@ -34,7 +34,12 @@ func genShared(defect bool) *rapid.Generator[*Spec] {
 		pApp := addItem(s, Item{Kind: "func", Pkg: lib, Name: "NewApp", Params: []*Type{db, cfg}, Out: app, Cleanup: x.pct(30, "appcl")})
 		pReport := addItem(s, Item{Kind: "func", Pkg: lib, Name: "NewReport", Params: []*Type{store}, Out: report})
 		useBind := x.pct(50, "usebind")
+		// dbInCommon: the shared set itself provides *DB; the variants then differ only in their bindings
+		dbInCommon := useBind && x.pct(40, "dbincommon")
 		common := []Ref{RItem(pCfg), RItem(pApp)}
+		if dbInCommon {
+			common = append(common, RItem(addItem(s, Item{Kind: "func", Pkg: lib, Name: "NewSharedDB", Out: db})))
+		}
 		if useBind {
 			common = append(common, RItem(pReport))
 		}
@@ -49,23 +54,26 @@ func genShared(defect bool) *rapid.Generator[*Spec] {
 			victim = x.intn(1, nv-1, "victim") // never the first: the leak needs an earlier, complete use
 		}
 		for k := 0; k < nv; k++ {
-			wantReport := useBind && x.pct(60, "wantreport")
-			pDB := addItem(s, Item{Kind: "func", Pkg: lib, Name: fmt.Sprintf("NewDB%d", k), Out: db, Err: x.pct(30, "dberr")})
-			own := []Ref{RItem(pDB)}
+			wantReport := useBind && (dbInCommon || x.pct(60, "wantreport"))
+			var own []Ref
+			if !dbInCommon {
+				pDB := addItem(s, Item{Kind: "func", Pkg: lib, Name: fmt.Sprintf("NewDB%d", k), Out: db, Err: x.pct(30, "dberr")})
+				own = []Ref{RItem(pDB)}
+			}
 			var bind Ref
 			if wantReport {
 				bind = RItem(addItem(s, Item{Kind: "bind", Out: store, Conc: db}))
 			}
 			missing := ""
 			if k == victim {
-				if wantReport && x.pct(50, "dropbind") {
+				if wantReport && (dbInCommon || x.pct(50, "dropbind")) {
 					missing = "binding"
 				} else {
 					missing = "provider"
 					own = nil
 				}
 			}
-			if wantReport && missing != "binding" && len(own) > 0 {
+			if wantReport && missing != "binding" && (len(own) > 0 || dbInCommon) {
 				own = append(own, bind)
 			}
 			// the shared set first or last; own items direct, in a named wrapper, or in an inline wrapper
